@@ -237,7 +237,9 @@ class Oracle(Q.QOracle):
     s = np.asarray(1.0 if scale is None else scale, np.float64)
     s = np.broadcast_to(s, y.shape) if s.ndim else np.full(y.shape, float(s))
     y64 = y.astype(np.float64)
-    tol = 1e-6 * np.maximum(np.abs(s), 1e-30)
+    # y = x + stop_gradient(-x + s*code): cancellation error up to one ulp of x
+    tol = 1e-6 * np.maximum(np.abs(s), 1e-30) + 2.4e-7 * np.abs(
+        x.astype(np.float64))
     if c in ("binary", "stochastic_binary"):
       if kw.get("use_01"):
         ok = (np.abs(y64) <= tol) | (np.abs(y64 - s) <= tol)
@@ -344,19 +346,22 @@ def check_grid(g, x, y):
   u = np.asarray(g["u"], np.float64)
   k = (y64 - off) / step
   rel = 1e-5 if g.get("approx") else 1e-9
-  offgrid = np.abs(k - np.round(k)) > 1e-4
+  # the straight-through expression x + (-x + xq) loses up to one ulp of x
+  ulp_k = 2.4e-7 * np.abs(x.astype(np.float64)) / step
+  offgrid = np.abs(k - np.round(k)) > 1e-4 + ulp_k
   if offgrid.any():
     i = int(np.argmax(offgrid.reshape(-1)))
     return ("off-grid", "output %r is not a code (step %r, %r steps)" % (
         float(y64.reshape(-1)[i]), float(step.reshape(-1)[i]),
         float(k.reshape(-1)[i])))
-  out = (y64 < lo - rel * step) | (y64 > hi + rel * step)
+  out = (y64 < lo - (rel + ulp_k) * step) | (y64 > hi + (rel + ulp_k) * step)
   if out.any():
     i = int(np.argmax(out.reshape(-1)))
     return ("out-of-range", "output %r outside [%r, %r]" % (
         float(y64.reshape(-1)[i]), float(lo.reshape(-1)[i]),
         float(hi.reshape(-1)[i])))
-  far = np.abs(y64 - u) >= step * (1.0 + (1e-3 if g.get("approx") else 1e-6))
+  far = np.abs(y64 - u) >= step * (1.0 + (1e-3 if g.get("approx") else 1e-6)
+                                   + ulp_k)
   if far.any():
     i = int(np.argmax(far.reshape(-1)))
     return ("not-adjacent", "output %r is %r steps from the clipped input %r"
@@ -366,7 +371,7 @@ def check_grid(g, x, y):
   if not g.get("approx"):
     ku = (u - off) / step
     iscode = np.abs(ku - np.round(ku)) < 1e-12
-    moved = iscode & (np.abs(y64 - u) > 1e-9 * step)
+    moved = iscode & (np.abs(y64 - u) > (1e-9 + ulp_k) * step)
     if moved.any():
       i = int(np.argmax(moved.reshape(-1)))
       return ("code-moved", "input %r is a code but came back as %r" % (
@@ -416,10 +421,18 @@ def check_po2(spec, x, y):
     # representation limit (C03 territory), not judged here
     judged = judged & (y64 != 0)
     y64 = np.where(y64 == 0, 2.0 ** emin, y64)
+  # x + stop_gradient(-x + xq) loses up to one ulp of x: elements whose code
+  # is not far above that error cannot be read back from the output
+  x64 = np.abs(x.astype(np.float64))
+  lost = np.abs(tgt) * 0.5 < 1e-5 * x64 + 0.0
+  lost = lost | (np.abs(y64) < 1e-5 * x64)
+  judged = judged & ~lost
+  y64 = np.where(lost, np.where(tgt < 0, -1.0, 1.0) * 2.0 ** np.clip(
+      np.round(np.log2(np.maximum(np.abs(tgt), 1e-300))), emin, emax), y64)
   if (y64 == 0).any():
     return ("not-a-power-of-two", "zero output")
   e = np.log2(np.abs(y64))
-  if (np.abs(e - np.round(e)) > 1e-6).any():
+  if (np.abs(e - np.round(e)) > 1e-6 + 4e-7 * x64 / np.abs(y64)).any():
     i = int(np.argmax(np.abs(e - np.round(e)).reshape(-1)))
     return ("not-a-power-of-two", "output %r" % float(y64.reshape(-1)[i]))
   e = np.round(e)
